@@ -20,8 +20,8 @@ t=m.get('demo','')
 t=json.dumps(t) if not isinstance(t,str) else t
 mm=re.search(r'((?:[\w.-]+/)+)'+re.escape(os.path.basename(d)),t)
 p=mm.group(1).rstrip('/') if mm else ''
-p=re.sub(r'^.*?tmp/seed/[^/]+/','',p)
-p=re.sub(r'^/?tmp/seed/[^/]+/?','',p)
+p=re.sub(r'^.*?tmp/seed(?:wt)?/[^/]+/','',p)
+p=re.sub(r'^/?tmp/seed(?:wt)?/[^/]+/?','',p)
 print(p)
 PY
 )
